@@ -51,6 +51,11 @@ MAP = [
     ("add_variables must honour scalar bounds of any real number type", "C12", "SolverWrapper.add_variables silently replaced a scalar lb/ub of type numpy.int64 / numpy.float32 / Fraction by the default bounds 0 and 1; MinErrorFlow on numpy-typed weights returned wrong flows or 'infeasible' (also C16)"),
     ("abstract model classes must not share one default solve_statistics", "C18", "AbstractPathModelDAG / AbstractWalkModelDiGraph used a mutable default solve_statistics={} that every model built without its own dict shared and overwrote (user subclasses per docs/abstract-path-model.md)"),
     ("with solution_weights_superset the error and slack bounds must cover the sum", "C07", "kLeastAbsErrors / kMinPathError with solution_weights_superset bounded errors and slacks by max(k*max flow, max(superset)): non-optimal objective (30 instead of 24 on the hourglass instance) or false infeasibility when the given weights pile up on one edge (also C08, C10)"),
+    ("greedy flow decomposition must return float weights for weight_type=float", "C02", "greedy route of kFlowDecomp/MinFlowDecomp returned int weights (and an int 0 for padding paths) for weight_type=float when the flow values were ints; the oracle had accepted ints for float, now strict"),
+    ("flow-safe paths must not depend on float round-off", "C05", "flow-safe paths compared float excess flows with 0 exactly: on decimal float flows a zero-excess path was reported safe (MinFlowDecomp with safety as subpath constraints returned 4 instead of 3 paths) and 'assert inexact_excess == 0' failed with default options (also C06)"),
+    ("a subpath constraint covered by length must not be turned into a safe sequence when it has zero-length edges", "C06", "with subpath_constraints_coverage_length == 1 constraints were used as fully required sequences although zero-length edges (all connecting edges in node mode) are not required: unsafe safe sequences / trusted edges, wrong optimum or infeasibility with solution_weights_superset (also C10)"),
+    ("greedy shortcut of kFlowDecomp must not be used when solution_weights_superset", "C13", "kFlowDecomp(solution_weights_superset=...) reported itself solved straight after construction with greedy weights outside the superset although the restricted model is infeasible"),
+    ("MinGenSet must tolerate float round-off", "C05", "MinFlowDecomp on decimal float flows raised ValueError (partition-constraint sums compared with ==) or 'Error adding constraint' (generating-set element -4.4e-16 used as a given weight) depending on the min-gen-set options"),
     ("MinErrorFlow with few_flow_values_epsilon on node-weighted", "C16", "MinErrorFlow(flow_attr_origin='node', few_flow_values_epsilon>0) raised KeyError"),
 ]
 def main():
